@@ -79,6 +79,6 @@ example :
     ExpandMsgXmd some H 2 4 [9] [5] 5 = ([5, 10, 5, 15, 5], GoImp.Err.nil) ∧
     (ExpandMsgXmd some H 2 4 [9] (List.replicate 256 1) 5).2 = GoImp.Err.sentinel "invalid domain size (>255 bytes)" ∧
     (ExpandMsgXmd some H 2 4 [9] [5] 511).2 = GoImp.Err.sentinel "invalid lenInBytes" ∧
-    ExpandMsgXmd some H 2 4 [9] [5] 0 = ([], GoImp.Err.nil) := by decide
+    ExpandMsgXmd some H 2 4 [9] [5] 0 = ([], GoImp.Err.nil) := by decide +kernel
 
 end GV.XmdGen
